@@ -17,8 +17,8 @@ from ..spaces import tokens as T, sentences as S
 ID = 'C06'
 
 BOUNDS = {
-    'quick': dict(LQ=5, LF=3, M=4, N=2),
-    'thorough': dict(LQ=7, LF=4, M=5, N=3),
+    'quick': dict(LQ=5, LF=3, M=4, N=2, MUT=1),
+    'thorough': dict(LQ=7, LF=4, M=5, N=3, MUT=2),
 }
 
 
@@ -77,7 +77,7 @@ def work(task):
                 if len(q) < M:
                     stack.append(q)
     elif kind == 'sent':
-        _, n, lo, hi = task
+        _, n, lo, hi, mut_n = task
         cs = S.constructors()
         sks = _sentence_skeletons(n)
         for idx in range(lo, hi):
@@ -92,12 +92,29 @@ def work(task):
                 res.count('strings')
                 res.count('sentence_texts')
                 e1.compare_parse(res, v, ID, 'sentence')
-                if par == full and tree[0] not in ('setitem', 'setop', 'del'):
+                if par == full and tree[0] not in ('setitem', 'setop', 'del') and 'ungrammatical' not in repr(want):
                     # model self-check: the fully parenthesised rendering gives back the tree
                     if v.mk != 'ok' or v.m[1] != ('code', [want]):
-                        if _grammatical(tree):
-                            res.count('INTERNAL_model_selfcheck_failed')
-                            res.notes.setdefault('selfcheck', [text, repr(v.m), repr(want)])
+                        res.count('INTERNAL_model_selfcheck_failed')
+                        res.notes.setdefault('selfcheck', [text, repr(v.m), repr(want)])
+            if mut_n is not None and _nodes(sk) <= mut_n:
+                # every one-token substitution and insertion over SIGMA_Q
+                base = S.render(tree)
+                for i in range(len(base) + 1):
+                    for sym in T.SIGMA_Q:
+                        cands = [base[:i] + [sym] + base[i:]]
+                        if i < len(base) and base[i] != sym:
+                            cands.append(base[:i] + [sym] + base[i + 1:])
+                        for toks in cands:
+                            v = e1.Verdict(' '.join(toks))
+                            res.count('strings')
+                            res.count('one_token_mutations')
+                            e1.compare_parse(res, v, ID, 'one-token mutation of a sentence')
+                for i in range(len(base)):
+                    v = e1.Verdict(' '.join(base[:i] + base[i + 1:]))
+                    res.count('strings')
+                    res.count('one_token_mutations')
+                    e1.compare_parse(res, v, ID, 'one-token deletion in a sentence')
     return res
 
 
@@ -111,8 +128,10 @@ def _sentence_skeletons(n):
     return _sk_cache[n]
 
 
-def _grammatical(tree):
-    return True
+def _nodes(sk):
+    def cnt(k):
+        return 0 if k[0] == 'L' else 1 + sum(cnt(c) for c in k[2])
+    return sum(cnt(k) for k in sk[1])
 
 
 def main(tier, seed, t0):
@@ -135,7 +154,7 @@ def main(tier, seed, t0):
             tasks.append(('chr', c, b['M']))
     nsk = len(_sentence_skeletons(b['N']))
     step = max(1, nsk // 256)
-    tasks += [('sent', b['N'], lo, min(nsk, lo + step)) for lo in range(0, nsk, step)]
+    tasks += [('sent', b['N'], lo, min(nsk, lo + step), b['MUT']) for lo in range(0, nsk, step)]
     tasks = runner.rotate(tasks, seed)
     total = runner.run_tasks(work, tasks)
     total.merge(parent)
@@ -153,8 +172,9 @@ def main(tier, seed, t0):
         'rule': 'every token string over SIGMA_Q (34 symbols) up to %d tokens and over SIGMA_FULL (55) up to %d, '
                 'explored as a prefix tree pruned only where BOTH parsers are dead; every character string over '
                 'SIGMA_CHAR (26) up to length %d; every statement with <= %d constructor nodes under every subset of '
-                'parenthesised operand slots. distinct_nontrivial = distinct trees accepted by both parsers.'
-                % (b['LQ'], b['LF'], b['M'], b['N']),
+                'parenthesised operand slots (published and unpublished slice shapes); every one-token substitution, insertion '
+                '(over SIGMA_Q) and deletion in every statement with <= %d nodes. distinct_nontrivial = distinct trees accepted '
+                'by both parsers.' % (b['LQ'], b['LF'], b['M'], b['N'], b['MUT']),
         'exhaustive': True,
         'bounds': b,
         'sentence_skeletons': nsk,
